@@ -116,17 +116,23 @@ Fixpoint ident_runes (fuel : nat) (s : bytes) : bool :=
 Definition Ident (s : bytes) : Prop := ident_runes (S (length s)) s = true.
 
 Definition no_byte (b : N) (s : bytes) : bool := forallb (fun x => negb (x =? b)) s.
-Definition Str (s : bytes) : Prop := no_byte 34 s = true /\ no_byte 10 s = true.
+(* a string: no quote; no LF except as its very first byte (the lexer checks for a line end only AFTER each rune it reads) *)
+Definition Str (s : bytes) : Prop := no_byte 34 s = true /\ no_byte 10 (tl s) = true.
 
-(* the command scanner of lexTaskCommands: every rune ASCII, no LF, no '#', a '}' only where the "}}" lookahead hides it *)
+(* the command scanner of lexTaskCommands, rune by rune exactly as the loop decides: a rune is never LF; if the text after it
+   starts with "{{" or "}}" those two bytes are swallowed without looking at the rune; otherwise the rune is ASCII and neither
+   '}' nor '#' *)
 Fixpoint cmd_scan (fuel : nat) (s : bytes) : bool :=
   match fuel with
   | O => false
   | S f => match s with
            | [] => true
-           | b :: rest =>
-             (b <? 128) && negb (b =? 10) && negb (b =? 35) && negb (b =? 125)
-             && (if has_prefix k_linterp rest || has_prefix k_rinterp rest then cmd_scan f (skipn 2 rest) else cmd_scan f rest)
+           | _ =>
+             let '(r, w) := decode s in
+             let rest := skipn w s in
+             negb (r =? 10)
+             && (if has_prefix k_linterp rest || has_prefix k_rinterp rest then cmd_scan f (skipn 2 rest)
+                 else negb (r =? 125) && negb (r =? 35) && (r <=? 127) && cmd_scan f rest)
            end
   end.
 Definition last_not (b : N) (s : bytes) : bool := match rev s with x :: _ => negb (x =? b) | [] => true end.
